@@ -12,7 +12,7 @@ from .c01 import payload
 
 PID = "C18"
 RULE = (
-    "cases = byte streams of 0..8 encoded messages (payload lengths boundary-biased in 0..4096), optionally one corrupted "
+    "cases = byte streams of 0..8 encoded messages (payload lengths boundary-biased in 0..4096; one in six a magic-cookie or SD-notification header, exact or with one field redrawn), optionally one corrupted "
     "header field (version, type, return code, length incl. < 8 and overshoot), optionally cut short at any position, fed "
     "to an asyncio.StreamReader in chunks while the reader task runs concurrently on the virtual loop; chunkings: every "
     "single and double cut position for four short streams (exhaustive), random cut sets and all-1-byte chunks otherwise; "
@@ -97,9 +97,17 @@ def _case(draw):
     msgs = []
     for _ in range(n):
         plen = draw(st.one_of(st.sampled_from(PL), st.integers(0, 300)))
-        msgs.append([draw(st.integers(0, 0xFFFF)), draw(st.integers(0, 0xFFFF)), draw(st.integers(0, 0xFFFF)),
-                     draw(st.integers(0, 0xFFFF)), draw(st.integers(0, 255)), draw(st.sampled_from(wire.MESSAGE_TYPES)),
-                     draw(st.sampled_from(wire.RETURN_CODES)), plen])
+        m = [draw(st.integers(0, 0xFFFF)), draw(st.integers(0, 0xFFFF)), draw(st.integers(0, 0xFFFF)),
+             draw(st.integers(0, 0xFFFF)), draw(st.integers(0, 255)), draw(st.sampled_from(wire.MESSAGE_TYPES)),
+             draw(st.sampled_from(wire.RETURN_CODES)), plen]
+        if draw(st.integers(0, 5)) == 0:
+            # a header the specification gives a meaning of its own (TCP magic cookies, SD notification), exact or with one field redrawn
+            keep = draw(st.sampled_from([None, None, 0, 1, 2, 3, 4, 5, 6]))
+            w = list(draw(st.sampled_from(wire.WELL_KNOWN_HEADERS))) + [draw(st.sampled_from([0, 0, 12, plen]))]
+            if keep is not None:
+                w[keep] = m[keep]
+            m = w
+        msgs.append(m)
     corrupt = None
     if msgs and draw(st.integers(0, 2)) == 0:
         field = draw(st.sampled_from(["length", "length", "proto", "mtype", "rcode"]))
